@@ -194,6 +194,9 @@ def find_skip_test(prog: Program, fn: Func):
 
 
 # ------------------------------------------------------------------------------------------------ the check
+LATER_RULES = ' Later rules: R20.1/R20.2 identify the skip test by interpreting it on probe files (sa/strexpr.py) and require all 49 skip_file probes to be recognised; R20.5 also decides what a line is (tokenizer lines); (R20.8) the sink gets the text as returned.'
+
+
 def check(prog: Program, tier: str) -> Result:
     res = Result(
         "C20",
@@ -211,6 +214,7 @@ def check(prog: Program, tier: str) -> Result:
             "Token-blind whole-text stages (also rewriting annotated lines) are reported under C11 (R20.4)."),
         rule_text="instances = statements of format_code, regex pairs, splice/keep-mask/line-edit sites of the package, clauses of has_ignore_comment",
     )
+    res.explanation += LATER_RULES
     res.trusted_base = ["CPython ast and re._parser", "sa/pathcond.py", "sa/textflow.py (text provenance)",
                         "anchors main.format_code, core.has_ignore_comment"]
     res.assumptions = ["a rewrite that goes through processing._schedule_rewrites is refused as a whole when any of its ranges touches an annotated line (C10 R10.6)"]
